@@ -1,12 +1,14 @@
 #!/bin/bash
-# ingest every delivered mutant under /tmp/mut/out/Cxx/mk that is not yet in /verif/seeded, then run seedtest on the new ones
+# ingest every delivered change under <base>/out/Cxx/mk that is not yet in /verif/seeded (id: Cxx-<tag>mk), then run seedtest on the new ones
+# usage: tools/ingest_all.sh /tmp/mut "" | tools/ingest_all.sh /tmp/mut2 r2
+base=${1:-/tmp/mut}; tag=${2:-}
 cd /verif
 new=""
-for d in /tmp/mut/out/C*/m*; do
+for d in $base/out/C*/m*; do
   [ -f "$d/patch.diff" ] || continue
-  prop=$(basename $(dirname $d)); k=$(basename $d); id="$prop-$k"
+  prop=$(basename $(dirname $d)); k=$(basename $d); id="$prop-$tag$k"
   [ -d "seeded/$id" ] && continue
-  [ -f "/tmp/mut/out/rejected-$id" ] && continue
-  if python3 tools/ingest_mutant.py $prop $d $id; then new="$new $id"; else touch /tmp/mut/out/rejected-$id; fi
+  [ -f "$base/out/rejected-$id" ] && continue
+  if python3 tools/ingest_mutant.py $prop $d $id; then new="$new $id"; else touch $base/out/rejected-$id; fi
 done
 [ -n "$new" ] && python3 tools/seedtest.py $new
